@@ -33,8 +33,13 @@ OPEN += [
 # (property, repo commit, what failed, signatures the check printed on the pre-fix tree)
 FIXED = [
     ("C06", "7361bba", "Driver(seed=0) replaced the seed by a random one: two runs with seed=0 diverged", []),
-    ("C02", "43a93b0", "OverflowError from math.exp on strongly favourable trials in all five criteria", []),
-    ("C02", "4a66374", "IsotensionCriteria subtracted the pressure from all nine stress components: hydrostatic stress != isobaric under shear", []),
+    ("C02", "43a93b0", "OverflowError from math.exp on strongly favourable trials in all five criteria",
+     ["C02|criteria_raised|type=OverflowError|driver=Canonical", "C02|criteria_raised|type=OverflowError|driver=GrandCanonical",
+      "C02|criteria_raised|type=OverflowError|driver=HamiltonianCanonical", "C02|criteria_raised|type=OverflowError|driver=Isobaric",
+      "C02|criteria_raised|type=OverflowError|driver=Isotension"]),
+    ("C02", "4a66374", "IsotensionCriteria subtracted the pressure from all nine stress components: hydrostatic stress != isobaric under shear",
+     ["C02|wrong_decision|rule=isotension_hydrostatic|driver=Isotension|case=accepted_but_rule_rejects",
+      "C02|wrong_decision|rule=isotension|driver=Isotension|case=rejected_but_rule_accepts"]),
     ("C01", "9e4ef1c", "Rotation passed radians to ASE's degree-based euler_rotate and drew Euler angles uniformly: biased orientations", []),
     ("C05", "95006bb", "DisplacementMove.default_label = 0 ignored for inserted atoms",
      ["C05|default_label_not_honoured|labels_of=DisplacementMove|default=0|driver=GrandCanonical|move=exch"]),
@@ -43,7 +48,8 @@ FIXED = [
     ("C03", "1e8f889", "FixAtoms indices stayed shifted after a rejected deletion",
      ["C03|state_changed_by_nonaccepted_trial|component=constraints|driver=GrandCanonical|move=exch|verdict=False|constraints=FixAtoms"]),
     ("C15", "359d328", "run(0) followed by run(n) repeated the log header and the step-0 observer call", []),
-    ("C20", "f54fa68", "no driver ever delivered on_cell_changed", []),
+    ("C20", "f54fa68", "no driver ever delivered on_cell_changed",
+     ["C20|cell_change_not_notified|driver=Isobaric", "C20|cell_change_not_notified|driver=Isotension"]),
     ("C07", "1d8072d", "restart file written through MonteCarlo.to_dict (alias bound at class creation): subclass settings missing, Isobaric/Isotension.from_dict TypeError; ForceBias could not be written", []),
     ("C03", "1dd570a", "per-atom arrays carried only by the exchange template (initial_charges, tags, ...) stayed on the atoms after a vetoed or rejected insertion (and made ASE calculators recompute)",
      ["C03|state_changed_by_nonaccepted_trial|component=arrays:initial_charges:appeared|driver=GrandCanonical|move=exch|verdict=False|constraints=none",
